@@ -199,11 +199,46 @@ pub static SET_OPS: &[OpSpec] = &[
     OpSpec { code: set::REBUILD, name: "rebuild", args: &[] },
 ];
 
+pub mod lay {
+    pub const INSERT: u16 = 0;
+    pub const REMOVE: u16 = 1;
+    pub const GET: u16 = 2;
+    pub const LIFE: u16 = 3;
+    pub const RESERVE: u16 = 4;
+    pub const SHRINK_TO_FIT: u16 = 5;
+    pub const SHRINK_TO: u16 = 6;
+    pub const CLEAR: u16 = 7;
+    pub const CLONE_SWAP: u16 = 8;
+    pub const FILL_TO_CAPACITY: u16 = 9;
+    pub const REMOVE_RUN: u16 = 10;
+    pub const RETAIN: u16 = 11;
+    pub const WITH_CAPACITY: u16 = 12;
+    pub const TRY_RESERVE: u16 = 13;
+}
+
+pub static LAY_OPS: &[OpSpec] = &[
+    OpSpec { code: lay::INSERT, name: "insert", args: &[Key] },
+    OpSpec { code: lay::REMOVE, name: "remove", args: &[Key] },
+    OpSpec { code: lay::GET, name: "get", args: &[Key] },
+    OpSpec { code: lay::LIFE, name: "life", args: &[Choice(14), Frac, Bool, Key] },
+    OpSpec { code: lay::RESERVE, name: "reserve", args: &[Small(96)] },
+    OpSpec { code: lay::SHRINK_TO_FIT, name: "shrink_to_fit", args: &[] },
+    OpSpec { code: lay::SHRINK_TO, name: "shrink_to", args: &[Frac] },
+    OpSpec { code: lay::CLEAR, name: "clear", args: &[] },
+    OpSpec { code: lay::CLONE_SWAP, name: "clone_swap", args: &[Bool] },
+    OpSpec { code: lay::FILL_TO_CAPACITY, name: "fill_to_capacity", args: &[] },
+    OpSpec { code: lay::REMOVE_RUN, name: "remove_run", args: &[Frac, Small(40)] },
+    OpSpec { code: lay::RETAIN, name: "retain", args: &[Any, Small(100)] },
+    OpSpec { code: lay::WITH_CAPACITY, name: "with_capacity", args: &[Frac] },
+    OpSpec { code: lay::TRY_RESERVE, name: "try_reserve", args: &[Small(161), Choice(4), Any] },
+];
+
 pub fn specs_for(kind: &str) -> &'static [OpSpec] {
     match kind {
         "map" => MAP_OPS,
         "table" => TABLE_OPS,
         "set" => SET_OPS,
+        "lay" => LAY_OPS,
         _ => &[],
     }
 }
